@@ -14,6 +14,21 @@ COMMON_NOTE = ("Trusted: Lean 4.33.0 kernel; axioms propext, Classical.choice, Q
 
 # id -> (claimed, theorem summary, technique, design section, extra note)
 TABLE = {
+    "C14": (True,
+            "Theorems over data REGENERATED from /repo on every run by harness/translate.py (GenProps/C14.lean, kernel "
+            "evaluation): the serialised ATNs embedded in blackbirdLexer.py, blackbirdLexer.cpp and both "
+            "blackbirdLexer.interp files are identical integer for integer, likewise the four parser ATNs; the .tokens "
+            "files are identical to each other and to the vocabulary the grammar prescribes; rule names, symbolic and "
+            "literal names of both targets and the .interp files are the grammar's; the lexer rules (as regular "
+            "expressions, with fragments inlined, order and skip flags) and parser rules read from src/blackbird.g4 are "
+            "exactly the model's. Static theorems (Props/C14.lean): the model lexer takes the longest match over all "
+            "rules with the earliest rule winning ties (fold invariant), the catch-all rule is last, 61 token kinds. "
+            "Partial: that ANTLR's ATN recognises the grammar's language is not proved from the ATN; it is checked by "
+            "the shipped lexer vs a reference lexer interpreting the current grammar on boundary-adversarial strings and "
+            "the shipped parser vs an Earley recogniser on all short token sequences, random sentences and mutations.",
+            "Lean 4 proof over regenerated data (translator) + lexer/parser differential", "DESIGN.md 7 (C14)",
+            "Translator harness/translate.py and grammar reader harness/g4.py are trusted readers, validated on every "
+            "run (re-rendered grammar equals the source; extracted ATN equals what the module hands the runtime)."),
     "C15": (True,
             "Theorems (Props/C15.lean): a registered p-array is delivered as its name positionally and by keyword, "
             "other variables by value; declaring an array named p<digits> in a tdm program registers the name and "
